@@ -350,6 +350,16 @@ func runProperty(spec *PropSpec, tier string, seed, workers int) int {
 					tvBad++
 					if tvBad <= 3 {
 						say("TV-MISMATCH harness=%s native=%s\n  executor: %v\n  native:   %v", h.Func, r.Outcome, tv.Obs, r.Obs)
+						if tvBad <= 3 {
+							os.MkdirAll(filepath.Join(outDir, "tv-mismatch"), 0o755)
+							b, _ := json.MarshalIndent(tv.Tape, "", " ")
+							os.WriteFile(filepath.Join(outDir, "tv-mismatch", fmt.Sprintf("%s-%s-%d.json", spec.ID, h.Func, tvBad)), b, 0o644)
+							if n := len(r.Raw); n > 400 {
+								say("  %s", r.Raw[n-400:])
+							} else {
+								say("  %s", r.Raw)
+							}
+						}
 					}
 				}
 			}
